@@ -87,7 +87,7 @@ def render_lines(spec):
     """-> (physical lines without line ends, index of the ~A title line)"""
     ncol = len(spec["tokens"][0])
     L = ["~Version ---------------------", "VERS.   %s : CWLS LOG ASCII STANDARD" % spec.get("vers", "2.0"),
-         "WRAP.   NO : ONE LINE PER DEPTH STEP",
+         "WRAP.   NO : ONE LINE PER DEPTH STEP"] + (["DLM.   %s : COLUMN DELIMITER" % spec["dlm"]] if spec.get("dlm") else []) + [
          "~Well ------------------------", "STRT.M   1.0 : START", "STOP.M   2.0 : STOP", "STEP.M   1.0 : STEP",
          "NULL.   %s : NULL VALUE" % spec["null"], "WELL.   W1 : WELL",
          "~Curves ----------------------", "DEPT.M     : depth"]
@@ -202,6 +202,8 @@ def klass_of(spec, clause=""):
         tail, "1" if nrow == 1 else "n", "1" if ncol == 1 else "n", gaps,
         "lf" if spec["eol"] == "\n" else "crlf", ("%d" % spec["fnl"]) if not spec["post"] else "-", spec["chan"],
         int(hyphen_census_balanced(spec)), int(len(lines) > 21), int(first_data >= 21))
+    if spec.get("dlm"):
+        kl += ";dlm=%s" % spec["dlm"]
     if "values" in clause or "nan" in clause:
         dl = [l for l in lines if l[0] == "d"]
         tab = any("\t" in sp for l in dl for sp in l[3]) or any("\t" in l[2] or "\t" in l[4] for l in dl)
@@ -410,6 +412,9 @@ def grid_tokens(nrow, ncol, null, salt):
 def data_line(rng, i, ncol, style):
     if style == "simple":
         return ["d", i, "", [" "], ""]
+    if style == "tabruns":
+        # a file that declares DLM TAB: columns separated by runs of one or more tabs, nothing else on the line
+        return ["d", i, "", [rng.choice(["\t", "\t", "\t\t", "\t\t\t"]) for _ in range(max(1, min(ncol - 1, 4)))], ""]
     seps_pool = {"spaces": [" ", "  ", "     "], "tabs": ["\t"], "mix": [" ", "\t", "  ", " \t", "\t\t", "\t "]}[style]
     seps = [rng.choice(seps_pool) for _ in range(max(1, min(ncol - 1, 4)))]
     lead = rng.choice(["", "", " ", "   ", "\t"] if style != "tabs" else ["", "", "\t"])
@@ -476,7 +481,7 @@ def random_spec(rng, tier):
     null = rng.choice(list(NULLS))
     spell = rng.choice(SPELLS)
     toks = make_tokens(rng, r, c, spell, null)
-    style = rng.choice(["simple", "spaces", "tabs", "mix"])
+    style = rng.choice(["simple", "spaces", "tabs", "mix", "tabruns"])
     dens = rng.choice([0.0, 0.0, 0.15, 0.5, 1.0])
     lines = []
     for i in range(r):
@@ -491,6 +496,8 @@ def random_spec(rng, tier):
     spec = {"tokens": toks, "lines": lines, "null": null, "pre": pre, "post": post, "a_title": rng.choice(A_TITLES),
             "eol": rng.choice(["\n", "\r\n"]), "fnl": rng.random() < 0.6, "chan": rng.choice(["str", "str", "file"]),
             "spell": spell, "vers": rng.choice(["2.0", "2.0", "1.2"]), "src": "random"}
+    if style == "tabruns":
+        spec["dlm"] = "TAB"
     return normalise(spec)
 
 
